@@ -21,9 +21,13 @@ LEVEL = "fault_enumeration"
 RULE = (
     "A state pair (P = previous complete checkpoint, N = the checkpoint being written) is produced by a real calibrator "
     "(N extends P by one batch; or P belongs to another run with the same or a different number of rows; or there is no P). "
-    "Crash points enumerated on top of each P: (trunc) for each of the five files of the JSON/CSV/HDF5 back-end in write order, "
-    "files before it new, files after it old, the file itself cut at byte offsets {0, 1, all offsets for small files, seeded "
-    "offsets + line boundaries +-1, len-1, len}; (line) an exception raised at every LINE event of save_calibrator_state of "
+    "Crash points enumerated on top of each P: (trunc) the real save of N over a copy of P is run once under a LINE callback on "
+    "the checkpointing module that records every distinct on-disk folder state (so write order, temporary files and renames are "
+    "observed, not assumed); every recorded state is a crash state (death at a statement boundary), and for every file that "
+    "changes in a step that file is cut at byte offsets {0, 1, all offsets for small files, seeded offsets + line boundaries "
+    "+-1, len-1, len} with the files changed earlier in the step new and everything else as before the step; a step in which "
+    "one name disappears and its bytes appear under another name is an atomic rename (no intermediate state); "
+    "(line) an exception raised at every LINE event of save_calibrator_state of "
     "both back-ends (sys.monitoring); (kill) SIGKILL injected by strace at every openat/write/pwrite64/ftruncate/rename/"
     "unlink/fsync touching a checkpoint file during a real save in a child process, both back-ends; (enospc) the same points "
     "with error=ENOSPC. Oracle: the folder is restored (Calibrator.restore_from_checkpoint and load_calibrator_state) and "
@@ -266,30 +270,107 @@ def fresh_copy(st, ctx, backend):
 
 
 # --------------------------------------------------------------------------- engines
+def observe_save_steps(st, ctx):
+    """Run the real JSON-back-end save of N on top of a copy of P and record the sequence of on-disk folder states.
+
+    A LINE callback (sys.monitoring) on every function of the checkpointing module looks at the folder before each statement;
+    whenever a file's (mtime, size) changed, appeared or disappeared the whole folder is read.  The result is the list of
+    distinct consecutive states [(source line about to run, {name: bytes}, {name: (mtime_ns, size)})], from P to N: the write
+    order, temporary files and renames are *observed*, not assumed.
+    """
+    import inspect
+
+    from black_it.utils import json_pandas_checkpointing as mod
+
+    mon = sys.monitoring
+    codes = [f.__code__ for f in vars(mod).values() if inspect.isfunction(f) and f.__module__ == mod.__name__]
+    d = fresh_copy(st, ctx, "json")
+    steps, last = [], [None]
+
+    def look(line):
+        sig = {p.name: (p.stat().st_mtime_ns, p.stat().st_size) for p in sorted(d.iterdir()) if p.is_file()}
+        if sig != last[0]:
+            last[0] = sig
+            steps.append((line, {n: (d / n).read_bytes() for n in sig}, sig))
+
+    def on_line(c, line):
+        look(line)
+
+    TOOL = 3
+    mon.use_tool_id(TOOL, "verif-steps")
+    try:
+        mon.register_callback(TOOL, mon.events.LINE, on_line)
+        for c in codes:
+            mon.set_local_events(TOOL, c, mon.events.LINE)
+        look(0)
+        a, k = st["argsN"]
+        with quiet():
+            mod.save_calibrator_state(d, *a, **k)
+        for c in codes:
+            mon.set_local_events(TOOL, c, 0)
+        look(-1)
+    finally:
+        for c in codes:
+            mon.set_local_events(TOOL, c, 0)
+        mon.register_callback(TOOL, mon.events.LINE, None)
+        mon.free_tool_id(TOOL)
+    shutil.rmtree(d, ignore_errors=True)
+    return steps
+
+
+def write_folder(d, files):
+    d.mkdir(parents=True, exist_ok=True)
+    for n, b in files.items():
+        (d / n).write_bytes(b)
+
+
 def engine_trunc(desc, ctx, out):
+    """Byte-prefix crash states along the *observed* sequence of file operations of a real save."""
     st = make_states(desc, ctx)
     judge = Judge(st, "json")
     out["counters"]["states"] = 1
     rng = rng_for(desc["seed"], 6, 100 + desc["state"])
-    for j, f in enumerate(FILES):
-        new = (st["N"] / f).read_bytes()
-        n = len(new)
-        if n <= (600 if desc["tier"] == "quick" else 4096) and f != "series_samp.h5":
-            offs = set(range(0, n + 1, 1 if desc["tier"] != "quick" else 7))
-        else:
-            offs = {int(x) for x in rng.integers(0, n, size=24 if desc["tier"] == "quick" else 64)}
-        offs |= {0, 1, n - 1, n}
-        if f.endswith(".csv"):
-            for m in re.finditer(rb"\n", new):
-                offs |= {m.start() - 1, m.start(), m.start() + 1}
-        for nbytes in sorted(o for o in offs if 0 <= o <= n):
-            d = fresh_copy(st, ctx, "json")
-            for f2 in FILES[:j]:
-                shutil.copyfile(st["N"] / f2, d / f2)
-            (d / f).write_bytes(new[:nbytes])
-            verdict(judge, d, desc, f"{f}@{nbytes}/{n}", out)
+    steps = observe_save_steps(st, ctx)
+    final = {f: (st["N"] / f).read_bytes() for f in FILES}
+    if any(steps[-1][1].get(f) != final[f] for f in FILES):
+        raise Inconclusive("the observed save did not end in the complete checkpoint N")
+    order = []
+    for i, ((_, before, sb), (line, after, sa)) in enumerate(zip(steps, steps[1:])):
+        changed = sorted((n for n in after if sb.get(n) != sa[n]), key=lambda n: sa[n][0])
+        gone = [n for n in before if n not in after]
+        # (A) the state as it is on disk when this statement is about to run (death at a statement boundary)
+        if i > 0:
+            d = ctx.scratch() / "ck"
+            write_folder(d, before)
+            verdict(judge, d, desc, f"step {i}: on-disk state before source line {steps[i][0]}", out)
+            out["counters"]["points_statement_boundary"] = out["counters"].get("points_statement_boundary", 0) + 1
             shutil.rmtree(d, ignore_errors=True)
-    # file not yet opened (files before it new, the rest old) is the offset-n state of the previous file: covered
+        # an atomic rename: one name disappears, its content shows up under another name - no intermediate state
+        if gone and len(changed) == 1 and before[gone[0]] == after[changed[0]]:
+            order.append(f"rename {gone[0]} -> {changed[0]}")
+            out["counters"]["atomic_renames_observed"] = out["counters"].get("atomic_renames_observed", 0) + 1
+            continue
+        done = {}
+        for f in changed:
+            order.append(f"write {f}")
+            new = after[f]
+            n = len(new)
+            if n <= (600 if desc["tier"] == "quick" else 4096) and not f.endswith(".h5"):
+                offs = set(range(0, n + 1, 1 if desc["tier"] != "quick" else 7))
+            else:
+                offs = {int(x) for x in rng.integers(0, max(n, 1), size=24 if desc["tier"] == "quick" else 64)}
+            offs |= {0, 1, n - 1, n}
+            if f.endswith(".csv"):
+                for m in re.finditer(rb"\n", new):
+                    offs |= {m.start() - 1, m.start(), m.start() + 1}
+            for nbytes in sorted(o for o in offs if 0 <= o <= n):
+                d = ctx.scratch() / "ck"
+                write_folder(d, {**before, **done, f: new[:nbytes]})
+                verdict(judge, d, desc, f"step {i}: {f}@{nbytes}/{n}", out)
+                shutil.rmtree(d, ignore_errors=True)
+            done[f] = new
+    out["counters"]["observed_steps"] = out["counters"].get("observed_steps", 0) + len(steps) - 1
+    out["write_order"] = order
 
 
 class Injected(Exception):
@@ -432,7 +513,9 @@ def run_case(desc, ctx):
     out = {"violations": [], "counters": {}, "evals": 0, "nontrivial": []}
     {"trunc": engine_trunc, "line": engine_line, "kill": engine_strace, "enospc": engine_strace}[desc["engine"]](desc, ctx, out)
     if desc["engine"] in ("kill",) and desc.get("part") == 0 or (desc["engine"] == "trunc" and desc["state"] == 0 and desc["pkind"] == "same_run"):
-        out["sample"] = {"engine": desc["engine"], "backend": desc["backend"], "previous_checkpoint": desc["pkind"], "points": out["evals"], "counters": dict(out["counters"])}
+        out["sample"] = {"engine": desc["engine"], "backend": desc["backend"], "previous_checkpoint": desc["pkind"], "points": out["evals"], "counters": dict(out["counters"]),
+                         "observed_write_order": out.pop("write_order", None)}
+    out.pop("write_order", None)
     return out
 
 
